@@ -74,6 +74,11 @@ type fullSim struct {
 func fullConfig(tp *simkit.Tape, prop string) fullCfg {
 	c := fullCfg{}
 	c.Signal = adapters[tp.Draw(3)].name
+	if prop == "C03" && tp.Chance(1, 8) {
+		// profiles go through the same helper (xexporterhelper) with their own request type and queue encoding; they
+		// have no partial-failure error and no item counters, so C19 leaves them out
+		c.Signal = profilesAdapter.name
+	}
 	c.Persistent = tp.Chance(1, 3)
 	if c.Persistent {
 		// sending_queue::batch needs an items/bytes sizer and the persistent queue a requests sizer, but the legacy
@@ -107,7 +112,7 @@ func fullConfig(tp *simkit.Tape, prop string) fullCfg {
 	}
 	c.Steps = tp.Range(6, 40)
 	c.Faults = tp.Chance(2, 3)
-	c.Partial = c.Faults && c.Signal != "metrics" && tp.Chance(1, 2)
+	c.Partial = c.Faults && c.Signal != "metrics" && c.Signal != "profiles" && tp.Chance(1, 2)
 	c.Wait = !c.Persistent && tp.Chance(1, 4)
 	return c
 }
